@@ -381,19 +381,11 @@ def probe_verdicts(o, ptimeouts):
     says: success only for a 2xx answer within the probe timeout.  Returns mismatches."""
     last = {}
     bad = []
-    sent, applied = {}, {}
     for e in o["events"]:
         if e["kind"] == "probe-sent":
             last[e["args"][0]] = (e["args"][1], e["t"])
-            sent[e["args"][0]] = sent.get(e["args"][0], 0) + 1
         elif e["kind"] == "probe-apply":
             host = e["args"][0].split(":", 1)[1]
-            # the result that decides about a target comes from a probe sent to THAT target's address: at every point
-            # a host has been sent at least as many probes as results were applied to targets at that host
-            applied[host] = applied.get(host, 0) + 1
-            if host in ptimeouts and applied[host] > sent.get(host, 0):
-                bad.append({"seq": e["seq"], "target": host, "outcome": "no probe was sent to this target's address for this result",
-                            "applied_ok": e["args"][1]})
             if host in last and host in ptimeouts:
                 want = outcome_ok(last[host][0], ptimeouts[host])
                 if want is not None and want != e["args"][1]:
@@ -480,8 +472,8 @@ def run(tier, seed):
     res = Result("C01", tier, seed)
     work = Work("C01")
     try:
-        ok, blog = coq_build(["props/C01.vo", "props/C01restore.vo", "corr/C01corr.vo", "corr/C09corr.vo"])
-        proofs_ok, pa = proof_obligations_multi(work, res, ["C01.v", "C01restore.v"], ok, blog)
+        ok, blog = coq_build(["props/C01.vo", "props/C01restore.vo", "props/C01probe.vo", "corr/C01corr.vo", "corr/C09corr.vo", "corr/C01probe.vo"])
+        proofs_ok, pa = proof_obligations_multi(work, res, ["C01.v", "C01restore.v", "C01probe.v"], ok, blog)
         if ok:
             # the model's probe_next / next_idx proved equal to what the source says on this run (tools/gentie.py)
             import gentie
@@ -512,8 +504,8 @@ def run(tier, seed):
             rows, doct = [], {}
             if harness_ok and ok:
                 expr = ("fun tr => (reject_at tr, c01_fail_at tr, c01_deadline_fail_at true tr, c01_deadline_fail_at false tr, "
-                        "c01_counts tr)")
-                rows = m5lb.coq_eval_traces(work, m5lb.IMPORTS, outs, expr, tag, shard=5)
+                        "c01_counts tr, c01_probe_backed_fail_at tr)")
+                rows = m5lb.coq_eval_traces(work, m5lb.IMPORTS.replace("corr.C01corr", "corr.C01corr corr.C01probe"), outs, expr, tag, shard=5)
                 # doctored copies of one real trace must be rejected
                 src = next((o for o in outs if sum(1 for e in o["events"] if e["kind"] == "claim") >= 2 and
                             any(e["kind"] == "lb-new" and len(e["args"][1]) >= 2 for e in o["events"])), None) if self_test else None
@@ -527,7 +519,7 @@ def run(tier, seed):
             rejected, mon_fail, e2e = [], [], []
             cnts = [0, 0, 0, 0]
             for j, r in enumerate(rows):
-                rej, mon, dl_strict, dl_weak, cnt = r
+                rej, mon, dl_strict, dl_weak, cnt, backed = r
                 for q in range(4):
                     cnts[q] += cnt[q]
                 strict = metas[j] is not None and metas[j]["strict"]
@@ -536,6 +528,9 @@ def run(tier, seed):
                     mon_fail.append((j, "c01_ok", mon[1]))
                 elif dl is not None:
                     mon_fail.append((j, "c01_deadline_ok", dl[1]))
+                elif backed is not None:
+                    mon_fail.append((j, "c01_probe_backed_ok (corr/C01probe.v: a probe result was applied to a target without a probe sent to "
+                                        "that target's own address to back it - a successful one without a probe that could succeed)", backed[1]))
                 if rej is not None:
                     rejected.append((j, rej[1]))
             for j, o in enumerate(outs):
